@@ -11,7 +11,7 @@ import lib
 from lib import sx, sxo, call
 
 REAL = ["2025-06-18", "2025-03-26", "2024-11-05"]
-INVENTED = ["2026-01-01", "1999-01-01", "2025-06-17", "DRAFT-2026-v1"]   # the last one is not date-shaped: a version is any string
+INVENTED = ["2026-01-01", "1999-02-30", "2025-06-17", "DRAFT-2026-v1"]   # the 2nd is date-SHAPED but no calendar day, the last not date-shaped: a version is any string
 UNIVERSE = REAL + INVENTED
 
 SERVER_INFO = {"name": "peer", "version": "0.1"}
@@ -70,7 +70,10 @@ def build_answer(ans, req_id):
         d.update(result_obj(ans["value"]))
         return parse_message(d)
     if k == "error":
-        return JSONRPCError(id=req_id, error={"code": ans["code"], "message": ans["message"]})
+        e = {"code": ans["code"], "message": ans["message"]}
+        if "data" in ans:
+            e["data"] = ans["data"]
+        return JSONRPCError(id=req_id, error=e)
     if k in NO_ANSWER_KINDS:
         return None
     raise lib.HarnessError(f"unknown answer kind {k}")
@@ -174,6 +177,19 @@ async def run_client_case(case):
         msg = build_answer(ans, rid)
         if msg is not None:
             await s2c_s.send(msg)
+        if "retry" in ans:
+            # a peer that would answer a SECOND initialize (sent after its error answer) with ans["retry"]: the client has no
+            # business sending one - the error ends the handshake
+            with anyio.move_on_after(2.0):
+                while True:
+                    try:
+                        m = await c2s_r.receive()
+                    except (anyio.EndOfStream, anyio.ClosedResourceError, anyio.BrokenResourceError):
+                        break
+                    d = describe_written(m)
+                    (obs["after"] if state["call_done"] else obs["between"]).append(d)
+                    if d[0] == "initialize":
+                        await s2c_s.send(build_answer({"kind": "version", "value": ans["retry"]}, getattr(m, "id", None)))
         if busy:
             await anyio.sleep(busy)
             with anyio.move_on_after(busy + 5.0):
